@@ -12,6 +12,19 @@ Streams
                get_interp_name, address_offsets, section_in_segment for every segment × section pair) is compared with
                the Spec's answer computed from the description (property) and with the Lean model run on the bytes
                (correspondence).
+               Fourth wave: the model side answers through the whole-file functions of Model/ContentsFile.lean
+               (ELFFile(BytesIO(bytes)) → get_section(i) / get_segment(j) → accessor: the functions the `file_*` theorems of
+               Props/C02.lean speak about); besides the image-derived expectation every item carries the
+               DESCRIPTION-derived one (`desc`: the stored body / zero block / inflated stream, the string of the stored
+               table, the part of a section body a segment extent covers, the path stored at a PT_INTERP segment's start)
+               and, on the error side, the error the theorems name (`err`: OverflowError for extents no seek/read reaches —
+               sh_offset / sh_size / p_offset / p_filesz / string offsets >= 2^63 —, ELFParseError for an interpreter path
+               that is unreachable or unterminated); both are compared with the real library on every case.
+               Sections 'w:*' and wild segments / string offsets put 2^63-1, 2^63, 2^63+5, 2^64-1 there.
+               `macro-full:*` counts, over all segment × section pairs where nothing wraps, where the rule the code
+               computes agrees with the WHOLE binutils macro and where the two clauses it does not implement (.tbss size
+               rule; empty section at the edge of PT_DYNAMIC / PT_NOTE) make it differ (a view of the Spec, not a check of
+               the code: the property enumerates the four condition groups).
   raw        : truncated / byte-substituted images → model vs real (errors included), zlib calls recorded from the run.
 zlib is an external call: the harness supplies `inflate` (Spec side) and the answers of
 `decompressobj().decompress(data, max_length)` (model side) with each case.
@@ -26,6 +39,8 @@ RULE = ('geom: every (file d1,d2) × segment type and every (vma d1,d2) × segme
         'cls∈{32,64} × LSB/MSB × 8 machine classes, addresses up to 2^cls; all pairs of every image are compared. '
         'data: body sizes {0,1,2,63,64,65,127..129,300,4096,65536,10^5}, zlib levels {0,1,6,9}, ch_size ∈ {right, ±1, 0, 10, huge}, '
         'ch_type ∈ {1, 0, 2, 0x60000000, 0x7fffffff, 0x12345}, string lengths 0..300 cyclic, ranges at every PT_LOAD boundary ±1. '
+        'error side: sections / segments / string offsets at {2^63-1, 2^63, 2^63+5, 2^64-1} (masked to the class), NOBITS and PROGBITS '
+        'sizes >= 2^63; every item is compared with the image-derived AND the description-derived expectation. '
         'raw: truncations at region boundaries and substitutions in header tables / compression headers. '
         'Non-trivial = distinct image with ≥ 1 non-null section or segment.')
 ASSUMPTIONS = ['io.BytesIO semantics (seek/read convert to Py_ssize_t)',
@@ -362,6 +377,23 @@ def gen_data(rng, thorough=False):
             secs.append(sec(name, type=ztype, flags=flags | SHF_COMPRESSED,
                             addr=0, body=None, size=size_override, addralign=align, chdr=chdr, zbody=z, kind='z',
                             meta='z:%s/%s/%s' % (zmode, csz, 'zlib' if ch_type == 1 else 'other')))
+    # the error side: extents no seek/read reaches (sh_offset / sh_size >= 2^63; in ELF32 the same recipes stay reachable)
+    wild = []
+    for _ in range(rng.choice([0, 0, 1, 2])):
+        big = rng.choice([(1 << 63) - 1, 1 << 63, (1 << 63) + 5, (1 << 64) - 1, 1 << 62]) & maxv
+        wk = rng.choice(['empty@wild', 'empty@wild', 'nobits@wild', 'nobits-oversize', 'raw-oversize'])
+        nm = b'.w%d' % len(wild)
+        if wk == 'empty@wild':
+            secs.append(sec(nm, type=rng.choice([1, 7, 0x12345678]), flags=rng.choice([0, SHF_ALLOC]), body=b'', kind='raw', meta='w:' + wk))
+        elif wk == 'nobits@wild':
+            secs.append(sec(nm, type=8, flags=SHF_ALLOC | SHF_WRITE, body=None, size=rng.choice([0, 1, 64]), kind='nobits', meta='w:' + wk))
+        elif wk == 'nobits-oversize':
+            # sizes between the cap and 2^63 would really be allocated (MemoryError is not modelled): never generated
+            secs.append(sec(nm, type=8, flags=SHF_ALLOC | SHF_WRITE, body=None, size=big if big >= (1 << 63) else 64, kind='nobits',
+                            meta='w:' + wk))
+        else:
+            secs.append(sec(nm, type=1, flags=0, body=rnd_bytes(rng, rng.choice([0, 3])), size=big, kind='raw', meta='w:' + wk))
+        wild.append((len(secs) - 1, wk, big))
     # an interpreter path
     interp_idx = None
     if rng.random() < 0.6:
@@ -374,8 +406,22 @@ def gen_data(rng, thorough=False):
     shstrndx, name_off = add_shstrtab(rng, secs)
     strq += [[shstrndx, o] for o in sorted(set(name_off.values()))[:6]]
     nseg = rng.choice([0, 1, 2, 4, 6])
-    shoff, phoff, shentsize, phentsize, end = layout(rng, cls, secs, nseg + (1 if interp_idx is not None else 0))
+    nwildseg = rng.choice([0, 0, 1, 2])
+    shoff, phoff, shentsize, phentsize, end = layout(rng, cls, secs, nseg + nwildseg + (1 if interp_idx is not None else 0))
+    for (i, wk, big) in wild:
+        if wk.endswith('@wild'):
+            secs[i]['offset'] = big
+    # string offsets around the last reachable stream position
+    for idx in [i for i, t in enumerate(secs) if t['kind'] == 'strtab'][:2]:
+        toff = secs[idx]['offset']
+        strq += [[idx, (1 << 63) - toff], [idx, (1 << 63) - toff - 1], [idx, 1 << 64], [idx, (1 << 63) + 7]]
     segs = []
+    for _ in range(nwildseg):
+        big = rng.choice([(1 << 63) - 1, 1 << 63, (1 << 63) + 5, (1 << 64) - 1]) & maxv
+        if rng.random() < 0.5:
+            segs.append(seg(rng.choice([1, 3, 4, 0x12345]), big, rnd_uint(rng, cls), rng.choice([0, 1, 64]), 64))
+        else:
+            segs.append(seg(rng.choice([1, 4]), rng.choice([0, 52, end]), 0x1000, big, big))
     for _ in range(nseg):
         t = rng.choice(secs[1:])
         size = t['size'] if t['size'] is not None else stored_len(cls, t)
@@ -469,13 +515,40 @@ def is_err(x):
     return isinstance(x, dict) and 'err' in x
 
 
+def expand(exp):
+    """The driver abbreviates a description-derived expectation equal to the image-derived one next to it as "="."""
+    for e in exp['sections']:
+        if e.get('desc') == '=':
+            e['desc'] = e['data']
+    for e in exp['strings']:
+        if e.get('desc') == '=':
+            e['desc'] = e['ok']
+    for e in exp['segments']:
+        if e.get('desc') == '=':
+            e['desc'] = e['data']['ok']
+        if e['interp'] is not None and e['interp'].get('desc') == '=':
+            e['interp']['desc'] = e['interp']['ok']
+    return exp
+
+
 def against_expect(impl, exp, zvalid):
     """List of (what, expect, got) where the implementation contradicts the property on a wf item."""
     bad = []
+    expand(exp)
     if 'ok' not in impl:
         return [('open', 'ok', impl)]
     o = impl['ok']
     for i, (e, g) in enumerate(zip(exp['sections'], o['sections'])):
+        # the error side, decided on the description alone (Props/C02 file_data_unreachable)
+        if e.get('err') is not None and g['data'] != {'err': e['err']}:
+            bad.append(('section %d must raise %s' % (i, e['err']), e['err'], summary(g['data'])))
+        # what the DESCRIPTION assigns (Props/C02 file_data_raw / _nobits / _compressed)
+        if e.get('desc') is not None and zvalid[i]:
+            if 'reject' in e['desc']:
+                if not is_err(g['data']):
+                    bad.append(('section %d must be rejected (description)' % i, e['desc'], summary(g['data'])))
+            elif g['data'] != e['desc']:
+                bad.append(('section %d data (description)' % i, summary(e['desc']), summary(g['data'])))
         if not (e['wf'] and zvalid[i]):
             continue
         if (e['compressed'], e['size'], e['align']) != (g['compressed'], g['size'], g['align']):
@@ -488,6 +561,10 @@ def against_expect(impl, exp, zvalid):
     for i, (e, g) in enumerate(zip(exp['strings'], o['strings'])):
         if e.get('wf') and is_utf8(e['ok']['b']) and g != {'ok': e['ok']}:
             bad.append(('string %d' % i, e['ok'], g))
+        if e.get('err') is not None and g != {'err': e['err']}:
+            bad.append(('string %d must raise %s' % (i, e['err']), e['err'], g))
+        if e.get('desc') is not None and is_utf8(e['desc']['b']) and g != {'ok': e['desc']}:
+            bad.append(('string %d (description)' % i, e['desc'], g))
     for i, (e, g) in enumerate(zip(exp['segments'], o['segments'])):
         if e['wf'] and g['data'] != e['data']:
             bad.append(('segment %d data' % i, summary(e['data']), summary(g['data'])))
@@ -495,6 +572,16 @@ def against_expect(impl, exp, zvalid):
             bad.append(('segment %d interp' % i, e['interp'], g['interp']))
         if (e['interp'] is None) != (g['interp'] is None):
             bad.append(('segment %d interp class' % i, e['interp'], g['interp']))
+        if e.get('err') is not None and g['data'] != {'err': e['err']}:
+            bad.append(('segment %d must raise %s' % (i, e['err']), e['err'], summary(g['data'])))
+        if e.get('desc') is not None and g['data'] != {'ok': e['desc']}:
+            bad.append(('segment %d data (description)' % i, summary(e['desc']), summary(g['data'])))
+        ei = e['interp']
+        if ei is not None and g['interp'] is not None:
+            if ei.get('err') is not None and g['interp'] != {'err': ei['err']}:
+                bad.append(('segment %d interp must raise %s' % (i, ei['err']), ei['err'], g['interp']))
+            if ei.get('desc') is not None and is_utf8(ei['desc']['b']) and g['interp'] != {'ok': ei['desc']}:
+                bad.append(('segment %d interp (description)' % i, ei['desc'], g['interp']))
     for i, (e, g) in enumerate(zip(exp['addr'], o['addr'])):
         if g != e:
             bad.append(('addr %d' % i, e, g))
@@ -601,12 +688,19 @@ def run_ast(ctx, stream, gens):
         ctx.out.case({'sha': hx(data[:80]), 'n': len(data)}, nontrivial=len(rq['ast']['sections']) + len(rq['ast']['segments']) > 1)
         if len(ctx.out.samples) <= 3 and len(r['bytes']) > 6000:
             ctx.out.samples[-1] = {'stream': stream, 'sections': len(rq['ast']['sections']), 'segments': len(rq['ast']['segments'])}
+        ctx.out.count('%s:carries(wfZ+layout+observe)' % stream)
         ctx.out.count('%s:cls=%d' % (stream, meta['cls']))
         ctx.out.count('%s:mclass=%s' % (stream, meta['mclass']))
-        e = r['expect']
+        e = expand(r['expect'])
         for s, es, zv in zip(secs, e['sections'], zvalid):
             ok = 'wf' if es['wf'] and zv else 'aside'
-            if s.get('meta'):
+            if es.get('err') is not None:
+                ctx.out.count('err-side:section:%s' % es['err'])
+            if es.get('desc') is not None and zv:
+                ctx.out.count('desc:section:%s' % ('reject' if 'reject' in es['desc'] else s['kind']))
+            if s.get('meta', '').startswith('w:'):
+                ctx.out.count('sec:%s:%s' % (s['meta'], ok))
+            elif s.get('meta'):
                 zmode, csz, cty = s['meta'][2:].split('/')
                 ctx.out.count('z:stream=%s:%s' % (zmode, ok))
                 ctx.out.count('z:ch_size=%s:%s' % (csz, ok))
@@ -615,6 +709,12 @@ def run_ast(ctx, stream, gens):
                     ctx.out.count('z:expected-rejections')
             else:
                 ctx.out.count('sec:%s:%s' % (s['kind'], ok))
+        ctx.out.count('desc:string', sum(1 for x in e['strings'] if x.get('desc') is not None))
+        ctx.out.count('err-side:string', sum(1 for x in e['strings'] if x.get('err') is not None))
+        ctx.out.count('desc:segment', sum(1 for x in e['segments'] if x.get('desc') is not None))
+        ctx.out.count('err-side:segment', sum(1 for x in e['segments'] if x.get('err') is not None))
+        ctx.out.count('desc:interp', sum(1 for x in e['segments'] if x['interp'] is not None and x['interp'].get('desc') is not None))
+        ctx.out.count('err-side:interp', sum(1 for x in e['segments'] if x['interp'] is not None and x['interp'].get('err') is not None))
         ctx.out.count('strings:wf', sum(1 for x in e['strings'] if x.get('wf')))
         ctx.out.count('strings:aside', sum(1 for x in e['strings'] if not x.get('wf')))
         ctx.out.count('inseg:pairs', sum(len(row) for row in e['inseg']))
@@ -623,9 +723,15 @@ def run_ast(ctx, stream, gens):
         ctx.out.count('addr:hits', sum(len(x['ok']) for x in e['addr']))
         # the Spec predicate against the C macro in 64-bit arithmetic (a check of the Spec, not of the code)
         for row, mrow in zip(e['inseg'], e['macro']):
-            for x, (mac, plain, fits) in zip(row, mrow):
+            for x, (mac, plain, fits, full, inert, tbss, nowrap) in zip(row, mrow):
                 if plain and fits and ast_cls_ok(rq) and x['ok'] != mac:
                     ctx.out.count('spec-vs-macro:differs-under-wrap')
+                # the whole macro (with the .tbss size rule and the PT_DYNAMIC/PT_NOTE empty-section clause, which the
+                # code does not implement): Props/C02 in_segment_eq_C_macro_iff says  rule == macro  <=>  inert
+                if fits and nowrap:
+                    if (x['ok'] == full) != inert:
+                        raise RuntimeError('Spec inconsistency: in_segment_eq_C_macro_iff fails on %r' % ((x, mrow),))
+                    ctx.out.count('macro-full:' + ('agrees' if inert else 'tbss-rule-differs' if tbss else 'empty-edge-clause-differs'))
         if check_case(ctx, stream, case, r, impl, zvalid) and len(r['bytes']) < 60000:
             seeds.append((rq, r))
     return seeds
